@@ -65,8 +65,9 @@ class ConstantIntegerGrid(Family):
     doc = "'constant' on an integer-typed new grid (np.arange / lists of ints) with symbolic real values"
 
     def configs(self, tier):
-        return [{"x": [0, 2, 3, 7], "q": [-1, 0, 1, 2, 5, 7, 9], "left": lf} for lf in (False, True)] + \
-               [{"x": [-3, -1, 4], "q": [-3, -1, 4], "left": False}, {"x": [1, 2], "q": [0, 1, 1, 2, 3], "left": True}]
+        return [{"x": [0, 2, 3, 7], "q": [-1, 2, 5], "left": lf} for lf in (False, True)] + \
+               [{"x": [0, 2, 3, 7], "q": [0, 7, 9], "left": False},
+                {"x": [-3, -1, 4], "q": [-3, -1, 4], "left": False}, {"x": [1, 2], "q": [0, 1, 1], "left": True}]
 
     def run(self, ctx, inst, x, q, left):
         from traffic_weaver import process
